@@ -1452,10 +1452,10 @@ class C17(BtProp):
                                 sh.node[j][0] == "D" and sh.node[j][2].startswith("s2b") for j in sh.node):
                             out.append(viol("unset-effect", "UnsetBlackboardVariable %d ran but %s still has a value"
                                             % (i, n[2][1])))
-                # a nested SetBlackboardVariable that reported SUCCESS has written the value (unless a later writer of
-                # the same key ran in this tick)
+                # a SetBlackboardVariable (plain or nested name) that reported SUCCESS has written the value (unless a later
+                # writer of the same key ran in this tick)
                 for i, n in sh.node.items():
-                    if n[0] == "L" and n[2][0] == "set" and str(n[2][2]) != "-" and ("U", i, "S") in o.T:
+                    if n[0] == "L" and n[2][0] == "set" and ("U", i, "S") in o.T:
                         ent = entered(o)
                         key = str(n[2][1])
                         later = False
@@ -1469,7 +1469,8 @@ class C17(BtProp):
                             continue
                         ok, v = _get(o.W, key, str(n[2][2]))
                         from common import val_str as _vs
-                        if not ok or _vs(v) != str(n[2][3]):
+                        # (the value itself, not merely one that compares equal: False is not 0)
+                        if not ok or _vs(v) != _vs(val_parse(str(n[2][3]))):
                             out.append(viol("set-effect", "SetBlackboardVariable %d reported SUCCESS but %s.%s is %s, not %s"
                                             % (i, key, n[2][2], _vs(v) if ok else "<missing>", n[2][3]), kind="set"))
                 # StatusToBlackboard publishes the child's status on every tick (round trip with BlackboardToStatus)
